@@ -1529,6 +1529,22 @@ def nk_dump(d, path):
     return dump, counts
 
 
+def ska_out(args, d, style, extra=None):
+    """run a subcommand that prints its result: to stdout, or (odd style) to a file given with -o,
+    which must then hold the result and stdout must not"""
+    args = args + (extra or [])
+    if style % 2 == 0:
+        return ska(args, d)
+    outp = os.path.join(d, f"out_{style}.txt")
+    if os.path.exists(outp):
+        os.remove(outp)
+    code, out, err = ska(args + ["-o", outp], d)
+    text = open(outp).read() if os.path.exists(outp) else ""
+    if out.strip():
+        text = "STDOUT-NOT-EMPTY\n" + out + text
+    return code, text, err
+
+
 def hist_via_cli(ctx, line):
     """execute one `hist` case line through the ska binary; returns the canonical result string"""
     kv = kvs(line)
@@ -1632,7 +1648,7 @@ def hist_via_cli(ctx, line):
                 args.append("--no-gap-only-sites")
             if f[5] == "1":
                 args.append("--filter-ambig-as-missing")
-            code, o, e = ska(args, d)
+            code, o, e = ska_out(args, d, names_style + len(out_parts), ["--threads", "2"] if blank_style == 6 else [])
             names = [l[1:] for l in o.splitlines() if l.startswith(">")]
             seqs = [l for l in o.splitlines() if not l.startswith(">")]
             while len(seqs) < len(names):
@@ -1643,7 +1659,7 @@ def hist_via_cli(ctx, line):
             t = int(f[1])
             mf = 0.0 if t == 0 or n == 0 else min(1.0, (t - 0.5) / n)
             args = ["distance", cur, "--min-freq", repr(mf)] + ([] if f[2] == "1" else ["--allow-ambiguous"])
-            code, o, e = ska(args, d)
+            code, o, e = ska_out(args, d, names_style + len(out_parts), ["--threads", "2"] if blank_style == 6 else [])
             items = []
             for l in o.splitlines()[1:]:
                 p = l.split("\t")
@@ -1695,7 +1711,8 @@ def map_via_cli(ctx, line):
         if code != 0:
             return classify_stderr(err)
     flags = (["--ambig-mask"] if kv.get("amask") == "1" else []) + (["--repeat-mask"] if kv.get("rmask") == "1" else [])
-    code, out, err = ska(["map", ref, skf] + flags, d)
+    style = sum(line.encode())
+    code, out, err = ska_out(["map", ref, skf] + flags, d, style, ["--threads", "2"] if style % 5 == 0 else [])
     if code != 0:
         return classify_stderr(err)
     names = [l[1:] for l in out.splitlines() if l.startswith(">")]
@@ -1703,7 +1720,7 @@ def map_via_cli(ctx, line):
     while len(seqs) < len(names):
         seqs.append("")
     aln = ",".join(f"{n}:{q}" for n, q in zip(names, seqs)) or "~"
-    code, out, err = ska(["map", ref, skf, "-f", "vcf"] + flags, d)
+    code, out, err = ska_out(["map", ref, skf, "-f", "vcf"] + flags, d, style + 1)
     if code != 0:
         return classify_stderr(err)
     raw, dec = [], []
